@@ -7,6 +7,7 @@ import (
 	"encoding/hex"
 	"errors"
 	"fmt"
+	"strings"
 
 	"github.com/NethermindEth/juno/core"
 	"github.com/NethermindEth/juno/core/felt"
@@ -29,6 +30,9 @@ type chainSpec struct {
 	Counts   []int  `json:"counts"`   // transactions per block, index = block number; height = len-1
 	Layout   string `json:"layout"`   // one char per block: o|n|-
 	NoHeight bool   `json:"noHeight"` // chain height key absent (empty database)
+	// Corrupt: damage applied after writing, `<kind>:<block>` with kind in drop-receipts | drop-txs |
+	// drop-header | count+1 | drop-last-receipt (databases the migration must refuse, not mangle)
+	Corrupt []string `json:"corrupt,omitempty"`
 }
 
 func (c chainSpec) height() uint64 { return uint64(len(c.Counts) - 1) }
@@ -197,7 +201,40 @@ func (c chainSpec) build() (*memory.Database, error) {
 			return nil, err
 		}
 	}
+	for _, c := range c.Corrupt {
+		var kind string
+		var b uint64
+		if i := strings.LastIndex(c, ":"); i > 0 {
+			kind = c[:i]
+			fmt.Sscanf(c[i+1:], "%d", &b)
+		}
+		switch kind {
+		case "drop-receipts":
+			_ = core.ReceiptsByBlockNumberAndIndexBucket.Prefix().Add(b).DeletePrefix(d)
+		case "drop-txs":
+			_ = core.TransactionsByBlockNumberAndIndexBucket.Prefix().Add(b).DeletePrefix(d)
+		case "drop-header":
+			_ = core.DeleteBlockHeaderByNumber(d, b)
+		case "count+1":
+			if hd, err := core.GetBlockHeaderByNumber(d, b); err == nil {
+				hd.TransactionCount++
+				_ = core.WriteBlockHeaderByNumber(d, hd)
+			}
+		case "drop-last-receipt":
+			if n := c2count(d, b); n > 0 {
+				_ = core.ReceiptsByBlockNumberAndIndexBucket.Delete(d, db.BlockNumIndexKey{Number: b, Index: uint64(n - 1)})
+			}
+		}
+	}
 	return d, nil
+}
+
+func c2count(d db.KeyValueReader, b uint64) int {
+	n := 0
+	for range core.ReceiptsByBlockNumberAndIndexBucket.Prefix().Add(b).Scan(d) {
+		n++
+	}
+	return n
 }
 
 func enc(v any) string {
